@@ -612,6 +612,7 @@ def wrap_array_func(func):
 
 @wrap_array_func
 def py_array_index(array, index):
+    if index is not None and index < 0: return None  # the translator has already added the array length
     try:
         return array[index]
     except IndexError:
@@ -633,6 +634,9 @@ def py_array_length(array):
 
 @wrap_array_func
 def py_array_slice(array, start, stop):
+    # the translator has already added the array length to negative bounds
+    if start is not None and start < 0: start = 0
+    if stop is not None and stop < 0: stop = 0
     return dumps(array[start:stop])
 
 def py_make_array(*items):
